@@ -33,4 +33,117 @@ theorem dateKey_none_of_noEnd (h : Str) (hno : hasEnd h = false) : dateKey h = n
 theorem dateKey_structural : dateKey (S "rss") = none ∧ dateKey (S "channel") = none ∧ dateKey (S "feed") = none ∧
     dateKey (S "item") = none ∧ dateKey (S "entry") = none := by decide +kernel
 
+/-! ### stage 2 (text constructs): table facts -/
+
+/-- every element the translator recognised as a text construct (and every name that reaches the title handlers) has a `_start_` and an `_end_` handler -/
+theorem content_names_have_handlers :
+    Gen.Mixin.contentElementsL.all (fun e => hasStart e.1 && hasEnd e.1) = true ∧
+    Gen.Mixin.titleHandlersL.all (fun e => hasStart e && hasEnd e) = true := by decide +kernel
+
+theorem contentKey_some_handlers (h : Str) (k : Str × Str) (hk : contentKey h = some k) : hasStart h = true ∧ hasEnd h = true := by
+  unfold contentKey at hk
+  cases hf : Gen.Mixin.contentElementsL.find? (·.1 == h) with
+  | none => rw [hf] at hk; cases hk
+  | some e =>
+    have hm := List.mem_of_find?_eq_some hf
+    have he := List.find?_some hf
+    have hall := List.all_eq_true.mp content_names_have_handlers.1 e hm
+    have : e.1 = h := by simpa using he
+    rw [this] at hall
+    simpa using hall
+
+theorem isTitle_handlers (h : Str) (ht : isTitle h = true) : hasStart h = true ∧ hasEnd h = true := by
+  unfold isTitle at ht
+  obtain ⟨e, hm, he⟩ := List.any_eq_true.mp ht
+  have hall := List.all_eq_true.mp content_names_have_handlers.2 e hm
+  have : e = h := by simpa using he
+  rw [this] at hall
+  simpa using hall
+
+theorem contentKey_none_of_noStart (h : Str) (hno : hasStart h = false) : contentKey h = none := by
+  cases hk : contentKey h with
+  | none => rfl
+  | some k => have := (contentKey_some_handlers h k hk).1; rw [hno] at this; cases this
+
+theorem isTitle_false_of_noStart (h : Str) (hno : hasStart h = false) : isTitle h = false := by
+  cases ht : isTitle h with
+  | false => rfl
+  | true => have := (isTitle_handlers h ht).1; rw [hno] at this; cases this
+
+theorem contentKey_none_of_noEnd (h : Str) (hno : hasEnd h = false) : contentKey h = none := by
+  cases hk : contentKey h with
+  | none => rfl
+  | some k => have := (contentKey_some_handlers h k hk).2; rw [hno] at this; cases this
+
+theorem isTitle_false_of_noEnd (h : Str) (hno : hasEnd h = false) : isTitle h = false := by
+  cases ht : isTitle h with
+  | false => rfl
+  | true => have := (isTitle_handlers h ht).2; rw [hno] at this; cases this
+
+theorem contentEndKey_none_of_noEnd (h : Str) (hno : hasEnd h = false) : contentEndKey h = none := by
+  unfold contentEndKey
+  simp [isTitle_false_of_noEnd h hno, contentKey_none_of_noEnd h hno]
+
+/-- the structural handler names and the date elements are not text constructs -/
+theorem content_structural : contentEndKey (S "rss") = none ∧ contentEndKey (S "channel") = none ∧ contentEndKey (S "feed") = none ∧
+    contentEndKey (S "item") = none ∧ contentEndKey (S "entry") = none := by decide +kernel
+
+theorem date_not_content : Gen.Mixin.dateElementsL.all (fun e => (contentEndKey e.1).isNone) = true := by decide +kernel
+
+theorem dateKey_not_content (h : Str) (kp : Str × Str) (hk : dateKey h = some kp) : contentEndKey h = none := by
+  unfold dateKey at hk
+  cases hf : Gen.Mixin.dateElementsL.find? (·.1 == h) with
+  | none => rw [hf] at hk; cases hk
+  | some e =>
+    have hm := List.mem_of_find?_eq_some hf
+    have he := List.find?_some hf
+    have hall := List.all_eq_true.mp date_not_content e hm
+    have : e.1 = h := by simpa using he
+    rw [this] at hall
+    simpa using hall
+
+/-! ### stage 2 (text constructs): inversion lemmas used by every property file -/
+
+theorem startContent_ok (s : Core) (k : Str) (a : List (Str × Str)) (ty : Str) (e : Bool) (c' : Core) (pe : Option Elem)
+    (h : startContent s k a ty e = .ok (c', pe)) :
+    c' = (pushContent s k a ty e).1 ∧ pe = some (pushContent s k a ty e).2 := by
+  unfold startContent at h
+  split at h
+  · cases h
+  · injection h with h; injection h with h1 h2; exact ⟨h1.symm, h2.symm⟩
+
+/-- what `push_content` leaves untouched -/
+theorem pushContent_frame (c : Core) (tag : Str) (a : List (Str × Str)) (d : Str) (e : Bool) :
+    (pushContent c tag a d e).1.entries = c.entries ∧ (pushContent c tag a d e).1.inentry = c.inentry ∧
+    (pushContent c tag a d e).1.feed = c.feed ∧ (pushContent c tag a d e).1.version = c.version ∧
+    (pushContent c tag a d e).1.nsMap = c.nsMap ∧ (pushContent c tag a d e).1.nsInUse = c.nsInUse ∧
+    (pushContent c tag a d e).1.infeed = c.infeed ∧ (pushContent c tag a d e).1.depth = c.depth ∧
+    (pushContent c tag a d e).1.incontent = true := ⟨rfl, rfl, rfl, rfl, rfl, rfl, rfl, rfl, rfl⟩
+
+theorem endContent_ok (o : Ops) (s s' : MSt) (h : Str) (hr : endContent o s h = .ok s') :
+    ∃ k top rest, s.stack = top :: rest ∧ top.name = k ∧ contentEndKey h = some k ∧
+      s' = ⟨endFinish o (afterTitle k (popContent o s k)), (popContent o s k).2.stack⟩ := by
+  unfold endContent at hr
+  split at hr
+  · rename_i k top rest hk hst
+    split at hr
+    · cases hr
+    · rename_i hne
+      injection hr with hr
+      exact ⟨k, top, rest, hst, by simpa using hne, hk, hr.symm⟩
+  · cases hr
+
+/-- `afterTitle` only ever touches `titleDepth` -/
+theorem afterTitle_frame (k : Str) (r : Option Str × MSt) :
+    (afterTitle k r).entries = r.2.c.entries ∧ (afterTitle k r).inentry = r.2.c.inentry ∧ (afterTitle k r).feed = r.2.c.feed ∧
+    (afterTitle k r).version = r.2.c.version ∧ (afterTitle k r).nsMap = r.2.c.nsMap ∧ (afterTitle k r).nsInUse = r.2.c.nsInUse ∧
+    (afterTitle k r).infeed = r.2.c.infeed ∧ (afterTitle k r).depth = r.2.c.depth ∧ (afterTitle k r).base = r.2.c.base ∧
+    (afterTitle k r).incontent = r.2.c.incontent ∧ (afterTitle k r).cp = r.2.c.cp := by
+  unfold afterTitle
+  split
+  · split
+    · split <;> exact ⟨rfl, rfl, rfl, rfl, rfl, rfl, rfl, rfl, rfl, rfl, rfl⟩
+    · exact ⟨rfl, rfl, rfl, rfl, rfl, rfl, rfl, rfl, rfl, rfl, rfl⟩
+  · exact ⟨rfl, rfl, rfl, rfl, rfl, rfl, rfl, rfl, rfl, rfl, rfl⟩
+
 end FeedVerif.Mixin
